@@ -106,8 +106,11 @@ Definition or_self (c : adm_case) (o : option obs) : obs := match o with Some x 
 Definition pf01 (c : adm_case) := negb (P01 (ac_cfg c) (table_ev c) (ac_req c) (ac_world c) (ac_obs c)).
 Definition pf06 (c : adm_case) :=
   negb (P06 (ac_cfg c) (ac_req c) (ac_world c) (ac_obs c) (or_self c (ac_noexempt c))
-        && P06_dryrun (ac_cfg c) (ac_world c) (ac_obs c)).
-Definition pf07 (c : adm_case) := negb (P07 (ac_cfg c) (table_ev c) (ac_req c) (ac_world c) (ac_obs c)).
+        && P06_dryrun (ac_cfg c) (ac_world c) (ac_obs c)
+        && P06_always_allowed (ac_cfg c) (ac_req c) (ac_obs c)).
+Definition pf07 (c : adm_case) :=
+  negb (P07 (ac_cfg c) (table_ev c) (ac_req c) (ac_world c) (ac_obs c)
+        && P07_expiry_reported (ac_cfg c) (ac_req c) (ac_world c) (ac_obs c)).
 Definition pf08 (c : adm_case) := negb (P08 (ac_cfg c) (table_ev c) (ac_req c) (ac_world c) (ac_obs c)).
 Definition pf09 (c : adm_case) := negb (P09 (ac_cfg c) (table_ev c) (ac_req c) (ac_world c) (ac_obs c) (ac_barepod c)).
 Definition pf10 (c : adm_case) := negb (P10 (ac_cfg c) (ac_req c) (ac_world c) (ac_obs c) (ac_create c) (ac_nosub c)).
